@@ -416,7 +416,7 @@ def check(pid, spec, tier, seed, tmp, t0, replay):
     if not propfail and (proof["failed"] or diverge) and not replay:
         # the property is no longer shown to hold: search for a concrete failing input
         searched = True
-        for k in range(3):
+        for k in range(2):
             _, more = run_all("thorough", seed * 31 + 1000 + k, search=True)
             results += more
             propfail, diverge2 = collect(more)
